@@ -414,6 +414,12 @@ def gen_observe_seeded(r, k):
     if r.random() < 0.5:
         thin["pipeline_seed"] = r.randrange(0, 100000)      # another seed on the same caller objects
     calls.append(thin)
+    if r.random() < 0.6:
+        # the very same Observation object is run once more (same parameters, another ambient generator state)
+        again = copy.deepcopy(calls[-1])
+        again["ambient"] = r.randrange(1, 100000)
+        again["same_mode_object"] = True
+        calls.append(again)
     return dict(kind="observe", pipe=pname, spec=spec, calls=calls, input_class="seeded_stochastic")
 
 
